@@ -153,4 +153,9 @@ fn tex_repeat_pot_modular_floor() {
     }
 }
 
+// Tried and dropped: "never out of bounds for EVERY texture size" with zero-sized texels (a symbolic w x h view needs no storage):
+// the symbolic products w*h and y*stride+x made CBMC run for 18 min without a verdict in both configurations. For all sizes the
+// argument is instead modular: (1) Verus: to_index_checked accepts exactly x < w, y < h for all u32 geometries (buf unit);
+// (2) Verus lemma lemma_pot_mask_in_range (tex unit): x & (w-1) < w for every power-of-two w; (3) the bounded Kani obligations above.
+
 include!("gen/dispatch_tex.rs");
